@@ -212,6 +212,22 @@ def _decide(res, src, dst, dst_asts, A, B, inputs, V, vis_exact, vname, costs, o
                         return ("skip", "every instance is out of scope (diagnostic without any instance atom)")
                     blocked.append(core)
                     continue
+                # is the V+ difference already a difference on the exact V?  (clingo decides; cheap)
+                sig_of = {X.sym[a]: X.sig[a] for a in X.sig if a in X.sym}
+                fix_exact = [t for t in trues if sig_of.get(t) in vis_exact]
+                cmp_exact = replay.compare(src, dst, facts(inst) + " " + extra, vis_exact, show_terms, costs, one_to_one, consts, dst_asts, fix=fix_exact)
+                if cmp_exact["status"] == "differ":
+                    hit = None
+                    for e in kf_classes:
+                        if e["id"] not in known and class_signature_holds(e, dst, facts(inst) + " " + extra, consts):
+                            hit = e
+                            break
+                    if hit is not None:
+                        known.append(hit["id"])
+                        res.setdefault("known_examples", []).append({"finding": hit["id"], "instance": facts(inst), "replay": cmp_exact})
+                        regexes += sigs_of(hit)
+                        continue
+                    return ("violation", f"{qname} sat (V+) and clingo confirms on V", {"instance": facts(inst), "fix": fix_exact, "replay": cmp_exact, "query": qname})
                 return ("sat_on_vplus", "")
             sig_of = {X.sym[a]: X.sig[a] for a in X.sig if a in X.sym}
             fix = [t for t in trues if V is None or sig_of.get(t) in V]
